@@ -435,7 +435,7 @@ pub fn finish(ctx: &Ctx) -> i32 {
     crate::engine::finish(
         ctx,
         Finish {
-            rule: "cases: (a) every sweep instruction (every opcode min/max, every enumerant, mask values, embedded opcodes) inside the smallest well-bracketed module its layout class needs; (b) generated modules: layout-ordered, interleaved (module-level instructions scattered through functions and blocks) and wild, one third with stacked byte-level faults (only inputs the loader accepts are in the domain). Oracle: the reference parser R1 splits the input into instructions with string padding positions, the layout model R2 computes the expected placement; output header carries input version and bound; output instructions, in R2's order, are word-identical to the input instructions modulo bytes after a string's NUL; same count (nothing dropped/invented); reload gives a field-wise equal module and assemble is a fixed point; assemble_into and instruction-by-instruction assembly over all_inst_iter / all_inst_iter_mut give the same words; load_words agrees with load_bytes. non-trivial = accepted module with >= 1 function holding >= 1 block and >= 8 instructions (sweep: accepted wrapper module); distinct = hash of the input bytes.",
+            rule: "cases: (a) every sweep instruction (every opcode min/max, every enumerant, mask values, embedded opcodes) inside the smallest well-bracketed module its layout class needs; (b) generated modules: layout-ordered, interleaved (module-level instructions scattered through functions and blocks) and wild, one third with stacked byte-level faults (only inputs the loader accepts are in the domain). Oracle: the reference parser R1 splits the input into instructions with string padding positions, the layout model R2 computes the expected placement; output header carries input version and bound; output instructions, in R2's order, are word-identical to the input instructions modulo bytes after a string's NUL; same count (nothing dropped/invented); reload gives a field-wise equal module and assemble is a fixed point; assemble_into and instruction-by-instruction assembly over all_inst_iter / all_inst_iter_mut give the same words; load_words agrees with load_bytes. non-trivial = accepted module with >= 1 function holding >= 1 block and >= 8 instructions (sweep: accepted wrapper module); distinct = hash of the input bytes. Added in rounds 18-19: structural-variations (texts split over two instructions, modules back to back, special words at instruction boundaries, ids at powers of two and ten, vocabulary prefix); byte slices at addresses 0..3 mod 4; generator word of every registered tool.",
             assumptions: vec![
                 "excluded per the statement: OpLine/OpNoLine inside a function outside a block; more than one OpMemoryModel".into(),
                 "for opcodes whose module-scope placement is outside the claim (vendor types/constants, module-scope OpExtInst) only the multiset of instructions, header and reload are checked".into(),
